@@ -75,8 +75,9 @@ impl HttpRange {
     ///
     /// Two ranges are adjacent if they can be merged without creating a gap.
     pub fn is_adjacent(&self, other: &Self) -> bool {
-        // Adjacent if one ends where the other starts (allowing 1-byte gap)
-        self.end + 1 == other.start || other.end + 1 == self.start
+        // Adjacent if one ends where the other starts (allowing 1-byte gap).
+        // A range ending at u64::MAX has no successor, so nothing follows it.
+        self.end.checked_add(1) == Some(other.start) || other.end.checked_add(1) == Some(self.start)
     }
 
     /// Get the gap size between this range and another
@@ -136,9 +137,15 @@ impl HttpRange {
         let mut chunks = Vec::new();
         let mut current_start = self.start;
 
-        while current_start <= self.end {
-            let chunk_end = (current_start + max_chunk_size - 1).min(self.end);
+        loop {
+            // Saturating: a chunk that would reach past u64::MAX is cut at the end of the range
+            let chunk_end = current_start
+                .saturating_add(max_chunk_size.saturating_sub(1))
+                .min(self.end);
             chunks.push(Self::new(current_start, chunk_end));
+            if chunk_end >= self.end {
+                break;
+            }
             current_start = chunk_end + 1;
         }
 
